@@ -12,6 +12,7 @@ WHERES = [None, 0, 1, 2, ('site', 0), ('site', 1), ('stmt', 1), ('stmt', 3), ('b
 
 def all_recipes(prog):
     f = prog.get('factors') or []
+    fnames = [x for x in f if x.isidentifier()]
     pn = prog.get('pnames') or []
     user = [n for n in pn[:2]] + ['acc', 'i', 'n', 't', 'j', 'm']
     ext = []
@@ -32,7 +33,7 @@ def all_recipes(prog):
         for w in (None, 0, 1, ('site', 0), ('body',)):
             ext.append(f'split({k}, where={w!r})')
             if w in (None, 0): ext.append(f"split({k}, where={w!r}, strategy='STRICT')")
-    for name in f[:2]:
+    for name in fnames[:2]:
         for w in (None, 0, 1):
             ext += [f'split({name!r}, where={w!r})', f"split({name!r}, where={w!r}, strategy='STRICT')"]
     for e in f[:5]:
@@ -41,7 +42,7 @@ def all_recipes(prog):
     ext += ['elim_iter(enumerate=False)', 'elim_iter(zip=False)', "single('ZipElim')", "single('EnumerateElim')",
             "seq(single('ZipElim'), single('EnumerateElim'))", "seq(single('EnumerateElim'), single('ZipElim'))", 'repeat(elim_iter(), 2)',
             "single('ReduceFusion')", 'repeat(fuse(), 2)']
-    basics = ['elim_iter()', 'fuse()', 'unroll_for(times=1)', 'split(2)', 'unroll_while(times=1)', 'unroll_for(times=2)', 'split(3)'] + ([f'split({f[0]!r})'] if f else [])
+    basics = ['elim_iter()', 'fuse()', 'unroll_for(times=1)', 'split(2)', 'unroll_while(times=1)', 'unroll_for(times=2)', 'split(3)'] + ([f'split({fnames[0]!r})'] if fnames else [])
     for a, b in itertools.permutations(basics, 2):
         ext.append(f'seq({a}, {b})')
     ext += ['repeat(unroll_for(times=1), 2)', 'repeat(unroll_for(times=1), 3)', 'repeat(split(2), 2)', 'repeat(unroll_while(times=1), 2)',
@@ -55,11 +56,45 @@ def all_recipes(prog):
 PRE = ['simplify()', "single('ConstFold')", "single('CopyPropagate')", 'lift_context()', 'simplify(cf=0)']
 PRE_CALL = ['inline()', 'seq(inline(), simplify())', 'inline(recursive=False)']
 
+def pinned_recipes(prog, R):
+    """recipes chosen by the features of the program: what the feature is there to exercise"""
+    ax = prog.get('axes') or {}
+    ids = set(ax.get('idioms') or [])
+    f = prog.get('factors') or []
+    out = [f'unroll_for(times={R.choice([1, 2, 3])})']
+    if ax.get('effect') == 'reassign-factor' or 'split-factor' in ids:
+        fn_ = [x for x in f if x.isidentifier()]
+        if fn_: out += [f'split({fn_[0]!r})', R.choice([f"split({fn_[0]!r}, strategy='STRICT')", f'SplitLoop({f[-1]!r})', f'split({fn_[0]!r}, where=0)'])]
+    if ax.get('iter') in ('zip', 'enumerate', 'enum-zip', 'pairs', 'nested-pairs') or 'zipcomp' in ids:
+        out += ['elim_iter()', R.choice(['elim_iter(enumerate=False)', 'elim_iter(zip=False)', "seq(single('EnumerateElim'), single('ZipElim'))", 'seq(elim_iter(), unroll_for(times=1))'])]
+    if ids & {'reduce', 'while'}:
+        out += ['fuse()', f'unroll_while(times={R.choice([1, 2, 3])})']
+    if ax.get('ctx') in ('lowprec', 'decorator', 'nested-static') or 'lowprec-loop' in ids:
+        out += [f'unroll_for(times={R.choice([2, 3, 4])})', R.choice(['split(3)', 'split(5)', 'unroll_for(times=5)'])]
+    if ax.get('effect') in ('mutate-list', 'rebind-list', 'reassign-bound', 'reassign-index', 'loopvar-after', 'early-return'):
+        out += [R.choice(['unroll_for(times=2)', 'unroll_for(where=0, times=1)']), R.choice(['split(2)', 'split(3)']), 'elim_iter()']
+    if ax.get('names') == 'gensym':
+        u = (prog.get('pnames') or ['t'])[0]
+        out += [f'unroll_for(times=1, temp_id={u!r}, idx_id={u!r})', f'split(2, temp_id={u!r}, inner_id={u!r})']
+    if ax.get('iter') in ('literal', 'local-lit', 'range-lit') or 'static-loop' in ids:
+        out += [R.choice(["unroll_for(times=1, strategy='STRICT')", "unroll_for(times=2, strategy='STRICT')"]), R.choice(["split(2, strategy='STRICT')", 'split(4)']), 'unroll_for(times=3)']
+    seen, res = set(), []
+    for r in out:
+        if r not in seen: seen.add(r); res.append(r)
+    return res
+
 def recipes_for_factory(tier):
     def recipes_for(prog, R):
         core, ext = all_recipes(prog)
-        if tier == 'quick': return core + R.sample(ext, 10)
-        return core + R.sample(ext, 30)
+        pins = pinned_recipes(prog, R)
+        if tier == 'quick':
+            rs = pins[:7] + R.sample(core, 2) + R.sample(ext, 3)
+        else:
+            rs = pins + core + R.sample(ext, 30)
+        seen, res = set(), []
+        for r in rs:
+            if r not in seen: seen.add(r); res.append(r)
+        return res
     return recipes_for
 
 def _has_lazy_reduction(fn) -> bool:
@@ -80,14 +115,40 @@ def _has_lazy_reduction(fn) -> bool:
             if isinstance(s, A.AssertStmt) and s.msg is not None and reds(s.msg): found = True
     return found
 
+def _enumerate_comp_index_rebound(fn) -> bool:
+    """a comprehension over enumerate(...) whose element (or later generator) holds an inner comprehension re-binding the index name"""
+    from fpy2.transform.path import sub_exprs
+    def walk(e):
+        yield e
+        for _, _, x in sub_exprs(e): yield from walk(x)
+    def names(t):
+        if isinstance(t, NamedId): return [t]
+        if isinstance(t, A.TupleBinding): return [n for e in t.elts for n in names(e)]
+        return []
+    for _, e in T.walk_exprs(fn.ast):
+        if not isinstance(e, A.ListComp): continue
+        for t, it in zip(e.targets, e.iterables):
+            if isinstance(it, A.Enumerate) and isinstance(t, A.TupleBinding) and t.elts and isinstance(t.elts[0], NamedId):
+                idx = t.elts[0]
+                for sub in [e.elt] + list(e.iterables):
+                    for x in walk(sub):
+                        if isinstance(x, A.ListComp) and x is not e and any(idx in names(tt) for tt in x.targets): return True
+    return False
+
 def classify(d, fn, xf):
+    # F61: EnumerateElim (comprehension path) lets an inner comprehension that re-binds the index name capture the inserted `xs[i]`
+    if ('elim_iter' in d['strategy'] or 'EnumerateElim' in d['strategy']) and 'enumerate=False' not in d['strategy']:
+        try:
+            if _enumerate_comp_index_rebound(fn): return 'F61'
+        except Exception:
+            pass
     if 'fuse' in d['strategy'] or 'ReduceFusion' in d['strategy']:
         if d['transformed_result'].startswith('err') and _has_lazy_reduction(fn): return 'F54'
     return None
 
 def build_programs(seed, tier):
     R = Prng(seed, 'C08:progs')
-    n_main, n_other, n_call = (300, 60, 40) if tier == 'quick' else (440, 90, 70)
+    n_main, n_other, n_call = (170, 25, 20) if tier == 'quick' else (700, 150, 110)
     sc = float(os.environ.get('VERIF_XGEN_SCALE', '1'))   # debugging aid: shrink the run
     n_main, n_other, n_call = int(n_main * sc), int(n_other * sc), int(n_call * sc)
     progs = corpus_progs('c08_corpus.py', R)
@@ -105,7 +166,7 @@ def build_programs(seed, tier):
 
 def run(rep, tier, seed):
     progs, stats = build_programs(seed, tier)
-    opts = {'inputs_cap': 7 if tier == 'quick' else None, 'ctx_every': 3 if tier == 'quick' else 2, 'max_traces': 5 if tier == 'quick' else 10, 'deadline_s': 900 if tier == 'quick' else 3600,
+    opts = {'inputs_cap': 5 if tier == 'quick' else None, 'loop_inputs_drop': (6, 9, 12, 13) if tier == 'quick' else None, 'ctx_every': 4 if tier == 'quick' else 2, 'max_traces': 3 if tier == 'quick' else 10, 'deadline_s': 900 if tier == 'quick' else 3600,
             'prog_budget': 60 if tier == 'quick' else 240}
     run_xforms(rep, tier, seed, PROP, progs, recipes_for_factory(tier), classify=classify, opts=opts)
     summarize_cov(rep, stats)
